@@ -230,21 +230,26 @@ def fmt_real(r):
     return calls + (" # ok" if r["out"] is None else " # err %s" % r["out"])
 
 
-MAX_RUNAWAYS_PER_BATCH = 3
+MAX_RUNAWAYS = 8
+_RUNAWAYS = None          # shared counter (multiprocessing.Value), created before the workers are forked
 
 
 def _worker(batch):
     warnings.simplefilter("ignore")
     out = []
-    runaways = 0
+    local = 0
     for idx, case in batch:
-        if runaways >= MAX_RUNAWAYS_PER_BATCH:
+        seen = _RUNAWAYS.value if _RUNAWAYS is not None else local
+        if seen >= MAX_RUNAWAYS:
             # circuit breaker: an implementation that hangs on many inputs is reported from the first few
             out.append(("SKIPPED", {"calls": [], "out": "SKIPPED"}))
             continue
         r = real_run(case, "endtime" if idx % 2 == 0 else "length")
         if r["out"] == "RUNAWAY":
-            runaways += 1
+            local += 1
+            if _RUNAWAYS is not None:
+                with _RUNAWAYS.get_lock():
+                    _RUNAWAYS.value += 1
         out.append((fmt_real(r), r))
     return out
 
@@ -255,6 +260,8 @@ def run_real_parallel(cases):
     if len(cases) < 400:
         return _worker(idx_cases)
     import multiprocessing as mp
+    global _RUNAWAYS
+    _RUNAWAYS = mp.get_context("fork").Value("i", 0)
     nproc = min(16, os.cpu_count() or 4)
     size = max(50, min(500, len(cases) // (nproc * 4) + 1))
     batches = [idx_cases[i:i + size] for i in range(0, len(idx_cases), size)]
